@@ -208,6 +208,10 @@ def fold(chk, prop, results, crash_is_violation=False):
                 chk.violation(Violation(prop, "crash", "crash:%s|%s" % (kind, func),
                                         "daemon crashed / exited uncleanly during a well-formed history: %s in %s\n%s\nlast steps:\n%s" % (kind, func, err, tail),
                                         {"config": r["config"], "events": r["events"]}))
+            elif kind == "leak":
+                # a leak report comes at exit, after the whole history was served: the trace is complete; whether everything is
+                # released is C10's (and C08's) question, not this property's
+                chk.count("leak_reports_not_judged_here")
             else:
                 chk.inconc("daemon crashed during a history (%s in %s); trace incomplete - see C08, whose workload covers crashes" % (kind, func))
         if r.get("sample"):
